@@ -294,10 +294,103 @@ fn votor_forwards_bundle(report: &Report) -> usize {
     cases
 }
 
+/// End to end (whole real nodes, virtual time): messages are LOST (not delayed) for a while on a
+/// set of links; nothing recovers them except the standstill path (10 s without progress ->
+/// `recover_from_standstill` -> Votor re-broadcasts the bundle -> repair fetches missing blocks).
+/// Every live node must be finalizing again, well beyond the frontier it had when the loss ended.
+fn whole_node_loss_recovery(report: &Report, tier: Tier) -> Vec<Value> {
+    use crate::common::{catch, take_thread_panics};
+    use crate::simnet::{Cluster, runtime};
+    use rayon::prelude::*;
+    use std::collections::BTreeSet;
+    use std::time::Duration;
+    let mut jobs: Vec<(usize, &'static str, u64, u64)> = Vec::new();
+    for n in tier.pick(vec![4usize], vec![4, 6]) {
+        for pattern in ["partition-2-vs-rest", "one-node-cut-off", "blackout"] {
+            for (from, to) in tier.pick(vec![(0u64, 3200u64), (2400, 5600)], vec![(0, 3200), (2400, 5600), (1000, 1400), (3000, 9000)]) {
+                jobs.push((n, pattern, from, to));
+            }
+        }
+    }
+    let results: Vec<Value> = jobs
+        .par_iter()
+        .map(|(n, pattern, from, to)| {
+            let (n, from, to) = (*n, *from, *to);
+            let total = to + 10_000 + 12_000;
+            let replay = json!({"oracle": "whole-node-loss-recovery", "n": n, "lost_links": pattern, "loss_from_ms": from, "loss_to_ms": to, "total_ms": total});
+            let _ = take_thread_panics();
+            let r = catch(|| {
+                let rt = runtime(13);
+                rt.block_on(async {
+                    let cluster = Cluster::start(&vec![10u64; n], Duration::from_millis(2), &BTreeSet::new());
+                    let mut t = 0u64;
+                    let mut at_heal: Vec<Option<u64>> = Vec::new();
+                    let mut lossy_on = false;
+                    while t < total {
+                        tokio::time::sleep(Duration::from_millis(200)).await;
+                        t += 200;
+                        if !lossy_on && t >= from && t < to {
+                            lossy_on = true;
+                            let mut g = cluster.hub.inner.lock().unwrap();
+                            for a in 0..n {
+                                for b in 0..n {
+                                    let lost = a != b
+                                        && match *pattern {
+                                            "partition-2-vs-rest" => (a < 2) != (b < 2),
+                                            "one-node-cut-off" => a == n - 1 || b == n - 1,
+                                            _ => true,
+                                        };
+                                    if lost {
+                                        g.lossy.insert((a, b));
+                                    }
+                                }
+                            }
+                        }
+                        if lossy_on && t >= to {
+                            lossy_on = false;
+                            cluster.hub.inner.lock().unwrap().lossy.clear();
+                            at_heal = cluster.finalized().await;
+                        }
+                    }
+                    (at_heal, cluster.finalized().await, cluster.tasks_alive())
+                })
+            });
+            let panics = take_thread_panics();
+            match r {
+                Err(p) => {
+                    report.violation("C18:whole-node-recovery:simulation-panicked".to_string(), p, replay.clone());
+                    json!({"scenario": replay, "outcome": "panic"})
+                }
+                Ok((at_heal, end, alive)) => {
+                    if !panics.is_empty() || alive.iter().any(|a| !a) {
+                        report.violation(format!("C18:whole-node-recovery:node-task-died:{pattern}"), format!("{:?}", panics.first()), replay.clone());
+                    }
+                    let frontier = at_heal.iter().flatten().copied().max().unwrap_or(0);
+                    let min_end = end.iter().flatten().copied().min().unwrap_or(0);
+                    // 12 s after the standstill timer at the latest: at least 3 windows beyond the frontier
+                    if min_end < frontier + 12 {
+                        report.violation(
+                            format!("C18:whole-node-recovery:no-progress-after-loss:{pattern}"),
+                            format!("n={n}: messages on {pattern} links were lost from {from} to {to} ms; finalized slots when the links healed {at_heal:?}, {} ms later {end:?}", total - to),
+                            replay.clone(),
+                        );
+                    }
+                    json!({"scenario": replay, "finalized_when_links_healed": at_heal, "finalized_at_end": end})
+                }
+            }
+        })
+        .collect();
+    results
+}
+
 pub fn run_c18(tier: Tier) -> i32 {
     let report = Report::new("C18", tier, "model_checking");
     let votor_cases = votor_forwards_bundle(&report);
     println!("  votor forwarding cases: {votor_cases}");
-    let cov = run_scens(&report, "C18", scen_set(tier), tier.pick(400_000, 4_000_000), tier.pick(20, 120), tier.pick(50, 850));
+    let recovery = if crate::common::replay_req().is_some() { Vec::new() } else { whole_node_loss_recovery(&report, tier) };
+    println!("  whole-node loss/recovery runs: {}", recovery.len());
+    let mut cov = run_scens(&report, "C18", scen_set(tier), tier.pick(400_000, 4_000_000), tier.pick(20, 120), tier.pick(50, 850));
+    cov["whole_node_loss_recovery_runs"] = json!(recovery);
+    cov["whole_node_loss_recovery_rule"] = json!("n real Alpenglow nodes in virtual time; messages on {partition 2|rest, every link of one node, all links} are dropped during the stated interval; afterwards only the standstill path (10 s) can restore progress; 12 s after the standstill timer every node must have finalized at least 12 slots beyond the highest slot finalized anywhere when the links healed");
     report.finish(cov)
 }
